@@ -477,18 +477,25 @@ def reject_case(draw):
 # ------------------------------------------------------------------ from_string
 
 
+FS_KINDS = ["digit", "digit", "length-1", "length+1", "line-number", "renumber", "swap"]
+
+
 @st.composite
 def fs_case(draw):
     three = draw(st.booleans())
     n = draw(st.integers(1, 6))
+    # Which entries are damaged and how comes from ONE uniform draw (3 decimal digits per entry):
+    # Hypothesis' generation phase likes to copy one entry's draws over another's, which makes the
+    # entries of a text all damaged or all intact far too often when each decides for itself.
+    plan = draw(gt.uniform_int(0, 10**18 - 1))
     entries = []
-    for _ in range(n):
+    for j in range(n):
         f = draw(gt.fields(canonical=draw(st.booleans()), with_name=three, for_from_string=True))
-        k = draw(st.integers(0, 9))
+        r = plan // 1000**j % 1000
         cor = None
-        if k < 4:
-            kind = draw(st.sampled_from(["digit", "digit", "length-1", "length+1", "line-number", "renumber", "swap"]))
-            cor = dict(kind=kind, line=draw(st.integers(0, 1)), pos=draw(st.integers(0, 999)),
+        if r % 10 < 4:
+            q = r // 10
+            cor = dict(kind=FS_KINDS[q % 7], line=q // 7 % 2, pos=draw(st.integers(0, 999)),
                        val=draw(st.integers(0, 8)))
         entries.append(dict(tle=f, corrupt=cor))
     filler = draw(st.lists(st.tuples(st.integers(0, 3 * n), st.sampled_from(["", "   ", "# comment", "#1 25544U", "\t"])),
@@ -535,45 +542,55 @@ def _corrupt(l1, l2, cor):
     return lines[0], lines[1], what
 
 
-def _visible(line):
-    """from_string can only recognise a TLE line by its "1 " / "2 " prefix; anything else is,
-    by the documented 3LE convention, a name line."""
+def _tle_like(line):
+    """A reader of multi-TLE text can only recognise a TLE line by its "1 " / "2 " prefix; anything
+    else is, by the 3LE convention, a name line."""
     return line.startswith("1 ") or line.startswith("2 ")
 
 
 def build_text(case):
-    """(text, expected entries [(name|None, l1, l2)], per-entry records, notes).
-
-    record = dict(corrupt=bool, silent=bool, before=number of valid entries preceding it);
-    silent = the only damage is a second line that no longer looks like a TLE line at all: the
-    reader cannot tell it from a name line, so dropping the entry without a report is allowed.
-    """
-    out, expected, notes, recs = [], [], [], []
+    """(text, notes): the entries, some corrupted in place, with blank / comment lines mixed in."""
+    out, notes = [], []
     for idx, ent in enumerate(case["entries"]):
         f = ent["tle"]
         l1, l2 = tf.format_lines(f)
         block = [f["name"]] if case["three"] else []
-        rec = dict(corrupt=bool(ent["corrupt"]), silent=False, before=len(expected))
         if ent["corrupt"]:
-            b1, b2, what = _corrupt(l1, l2, ent["corrupt"])
+            l1, l2, what = _corrupt(l1, l2, ent["corrupt"])
             notes.append(f"entry {idx}: {what}")
-            rec["silent"] = b1 == l1 and not _visible(b2)
-            block += [b1, b2]
-        else:
-            block += [l1, l2]
-            expected.append((f["name"] if case["three"] else None, l1, l2))
-        recs.append(rec)
-        out.append(block)
+        out.append(block + [l1, l2])
     flat = [ln for block in out for ln in block]
     for pos, text in sorted(case["filler"], key=lambda x: -x[0]):
         flat.insert(min(pos, len(flat)), text)
-    return "\n".join(flat) + ("\n" if case["trailing_newline"] else ""), expected, recs, notes
+    return "\n".join(flat) + ("\n" if case["trailing_newline"] else ""), notes
+
+
+def reference_reading(text, comments="#"):
+    """What a multi-TLE text contains, from the format definition alone: blank and comment lines do
+    not count; an entry is a well-formed line 1 immediately followed by a well-formed line 2
+    (69 columns, blanks and decimal points in place, checksums right); a line just before it that is
+    not itself a TLE line is its name.
+    Returns (entries [(name|None, l1, l2, index of l1)], damaged line indices, visible lines)."""
+    vis = [ln for ln in text.split("\n") if ln.strip() and not ln.startswith(comments)]
+    entries, used = [], set()
+    for k in range(len(vis) - 1):
+        if vis[k].startswith("1 ") and vis[k + 1].startswith("2 "):
+            try:
+                tf.parse_lines(vis[k], vis[k + 1], same_catalogue=False)
+            except tf.FormatError:
+                continue
+            name = vis[k - 1].strip() if k and not _tle_like(vis[k - 1]) else None
+            entries.append((name, vis[k], vis[k + 1], k))
+            used.update((k, k + 1))
+    damaged = [k for k, ln in enumerate(vis) if _tle_like(ln) and k not in used]
+    return entries, damaged, vis
 
 
 def check_from_string(case):
     from beyond.io.tle import Tle, TleParseError
 
-    text, expected, recs, notes = build_text(case)
+    text, notes = build_text(case)
+    expected, damaged, vis = reference_reading(text)
     kw = {} if case["error"] == "default" else {"error": case["error"]}
     got = []
     raised = None
@@ -583,39 +600,43 @@ def check_from_string(case):
     except TleParseError as exc:
         raised = exc
     lines = [tuple(t.text.split("\n")) for t in got]
-    corrupt = [r for r in recs if r["corrupt"]]
-    loud = [r for r in corrupt if not r["silent"]]
-    if case["error"] == "raise" and corrupt:
+    want = [e[1:3] for e in expected]
+    # a "2 " line that does not complete an entry is where a reader has to notice the damage
+    loud = [k for k in damaged if vis[k].startswith("2 ")]
+    if case["error"] == "raise" and (raised is not None or loud):
         if raised is None:
-            if loud:
-                raise Violation("from_string:no-raise", f"error='raise' did not raise ({notes}); "
-                                f"{len(got)} entries yielded")
-            stops = [len(expected)]
-        else:
-            # the error belongs to a corrupt entry not later than the first one that must be reported
-            last = loud[0]["before"] if loud else len(expected)
-            stops = sorted({r["before"] for r in corrupt if r["before"] <= last})
-        if not any(lines == [e[1:] for e in expected[:n]] for n in stops):
-            raise Violation("from_string:before-raise", f"{len(lines)} entries yielded before the error; the valid "
-                            f"entries preceding a corrupt one number {stops} ({notes})")
+            raise Violation("from_string:no-raise", f"error='raise' did not raise ({notes}); "
+                            f"{len(got)} entries yielded")
+        k = len(lines)
+        if lines != want[:k]:
+            raise Violation("from_string:before-raise", f"entries yielded before the error are not the first {k} "
+                            f"valid entries of the text ({notes})")
+        nxt = expected[k][3] if k < len(expected) else len(vis)
+        if not any(d < nxt for d in damaged):
+            raise Violation("from_string:raised", f"error='raise' raised {raised!r} after {k} entries although no "
+                            f"damaged line precedes valid entry {k} ({notes})")
+        if loud and k > sum(1 for e in expected if e[3] < loud[0]):
+            raise Violation("from_string:no-raise", f"error='raise' went past a second line that completes no "
+                            f"entry ({notes})")
     else:
         if raised is not None:
             raise Violation("from_string:raised", f"error={case['error']!r} raised {raised!r} ({notes})")
-        want = [e[1:] for e in expected]
         if lines != want:
             missing = [k for k, w in enumerate(want) if w not in lines]
             extra = [k for k, g in enumerate(lines) if g not in want]
-            kind = "lost" if missing else ("extra" if extra else "order")
+            kind = "lost" if missing or len(lines) < len(want) else ("extra" if extra or len(lines) > len(want) else "order")
             raise Violation(f"from_string:{kind}", f"{len(lines)} entries yielded, {len(want)} valid entries in the text "
                             f"(valid entries missing: {missing}, unexpected: {extra}; corruptions: {notes})",
                             notes=notes)
         if case["three"]:
-            names = [t.name for t in got]
-            if names != [e[0] for e in expected]:
-                raise Violation("from_string:name", f"names {names} != {[e[0] for e in expected]}")
+            for t, e in zip(got, expected):
+                if e[0] is not None and t.name != e[0]:
+                    raise Violation("from_string:name", f"entry named {t.name!r}, its name line says {e[0]!r}")
     cls = ["3-line" if case["three"] else "2-line", f"error:{case['error']}"]
     cls += sorted({f"cor:{e['corrupt']['kind']}" for e in case["entries"] if e["corrupt"]})
-    return dict(nt=bool(corrupt) and len(expected) > 0, cls=cls)
+    if len(expected) > sum(1 for e in case["entries"] if not e["corrupt"]):
+        cls.append("cross-entry-pair")
+    return dict(nt=bool(damaged) and len(expected) > 0, cls=cls)
 
 
 # ------------------------------------------------------------------ known findings
@@ -633,7 +654,25 @@ def _elnum_finding(facet, case, kind, msg, data):
     return False
 
 
-FINDINGS = {"tle-element-number-3-columns": _elnum_finding}
+def _leading_blank_finding(facet, case, kind, msg, data):
+    """A line with leading white space passes validation and is read one or more columns off."""
+    return facet == "reject" and kind == "misparsed:leading blank"
+
+
+def _orphan_line1_finding(facet, case, kind, msg, data):
+    """from_string loses the entry that follows a first line left without its second line: only
+    texts in which a "1 " line is directly followed by another "1 " line, only lost entries."""
+    if facet != "from_string" or kind != "from_string:lost":
+        return False
+    vis = reference_reading(build_text(case)[0])[2]
+    return any(a.startswith("1 ") and b.startswith("1 ") for a, b in zip(vis, vis[1:]))
+
+
+FINDINGS = {
+    "tle-element-number-3-columns": _elnum_finding,
+    "tle-leading-blank-misparsed": _leading_blank_finding,
+    "tle-from-string-orphan-line1": _orphan_line1_finding,
+}
 
 
 FACETS = [
@@ -651,6 +690,6 @@ FACETS = [
                "insertions, 28 renumberings and 12 paddings are tried",
           quick=(8, 40), thorough=(16, 600)),
     Facet("from_string", lambda s, t: fs_case(), check_from_string, setup=_eop,
-          rule="at least one corrupt and one valid entry in the text",
-          quick=(6, 500), thorough=(16, 6000)),
+          rule="at least one damaged line and one valid entry in the text",
+          quick=(8, 250), thorough=(16, 4000)),
 ]
